@@ -59,6 +59,8 @@ def corpus():
         # adapt='default' inside a compound takes the ENCLOSING trait's default on the C path
         # (default_value_for(trait, …) with trait = the compound): outside the model, see ASSUMPTIONS
         "#" + case_v("(Either 0 CBool (Instance (u 2) 1 2 N))", "(nd 2 (2 2 2))"),
+        "#f|-|(Either 0 Int (InstanceF 1))|fastfirst;(i 3);(inst 6 (6) () 11);(i 4);(inst 6 (6) () 11);N;(inst 7 (7 6) () 13);(f 10)",
+        "#f|-|(Either 0 Str Int (InstanceF 0))|pyfirst;(inst 6 (6) () 11);N;(inst 6 (6) () 12);NEW;(inst 6 (6) () 11);(i 1)",
     ]
 
 
@@ -79,11 +81,78 @@ def generate(rng, tier):
         yield "d|-|%s|" % tt
         for v in L:
             yield case_v(tt, v)
+    # forward-referenced Instance("Name") alternatives inside compounds: multi-step histories with assignments
+    # before and after the class is resolved, either path first (stateful: implementation + oracle only)
+    for _ in range(ncomp // 8):
+        yield forward_case(rng)
     for _ in range(ncomp):
         tt = V.random_trait(rng, rng.randint(1, depth))
         yield "d|-|%s|" % tt
         for _ in range(3 if tier == "quick" else 4):
             yield case_v(tt, V.random_value_for(rng, tt, L))
+
+
+FWD_FAST = ["Int", "Str", "Float", "Bool", "(RangeF 0 8 0 0)", "(Enum (i 1) (s a))"]
+FWD_SLOW = ["(RangeI 0 2 0 0)", "(Base Int)", "(String 1 3 N)"]
+FWD_VALUES = ["(inst 6 (6) () 11)", "(inst 6 (6) () 12)", "(inst 7 (7 6) () 13)", "N", "(i 3)", "(i 1)", "(f 10)", "(s a)",
+              "(b 1)", "(inst 2 (2) () 3)", "(t (i 1))", "(cls 6 (6))"]
+
+
+def forward_case(rng):
+    alts = [rng.choice(FWD_FAST) for _ in range(rng.randint(1, 2))]
+    if rng.random() < 0.3:
+        alts.append(rng.choice(FWD_SLOW))
+    alts.insert(rng.randrange(len(alts) + 1), "(InstanceF %d)" % rng.randint(0, 1))
+    r = rng.random()
+    tt = ("(Either %d %s)" % (1 if r < 0.15 else 0, " ".join(alts)) if r < 0.75 else "(CompoundH %s)" % " ".join(alts))
+    if rng.random() < 0.1:
+        tt = "(InstanceF %d)" % rng.randint(0, 1)           # stand-alone, for contrast
+    steps = [rng.choice(FWD_VALUES[:4]) if rng.random() < 0.5 else rng.choice(FWD_VALUES) for _ in range(rng.randint(3, 9))]
+    if rng.random() < 0.3:
+        steps.insert(rng.randrange(1, len(steps) + 1), "NEW")   # a second object of the same class
+    return "#f|-|%s|%s;%s" % (tt, rng.choice(["fastfirst", "pyfirst"]), ";".join(steps))
+
+
+def run_f(tt, hist):
+    """History on a class-level trait with a forward reference: every step assigns through the compiled path
+    and asks the handler's Python validate; the two must decide alike before and after the class is resolved."""
+    from traits.api import HasTraits
+    ctx = V.Ctx()
+    tterm = V.parse_sexp(tt)
+    steps = hist.split(";")
+    order, steps = steps[0], steps[1:]
+    import traits.api as T
+    o = V.build_trait(tterm, ctx)
+    G = type("G", (HasTraits,), {"x": o if isinstance(o, T.TraitType) else T.Trait(o), "__repr__": lambda self: "<G>"})
+    obj = G()
+    hits, outs, tags = [], [], {"forward", "order:" + order}
+    for i, s in enumerate(steps):
+        if s == "NEW":
+            obj = G()
+            outs.append("new")
+            continue
+        value = V.build_value(V.parse_sexp(s), ctx)
+
+        def fast():
+            setattr(obj, "x", value)
+            return obj.__dict__["x"]
+
+        def py():
+            return obj.trait("x").handler.validate(obj, "x", value)
+        if order == "fastfirst":
+            f, _, _ = V.show_outcome(fast, ctx)
+            p, _, _ = V.show_outcome(py, ctx)
+        else:
+            p, _, _ = V.show_outcome(py, ctx)
+            f, _, _ = V.show_outcome(fast, ctx)
+        kind = classify(f, p)
+        outs.append("%s/%s" % (f, p))
+        tags.add("fwd-step:" + ("first" if i == 0 else "later"))
+        if kind is not None:
+            hits.append(_hit("forward-reference:%s" % kind,
+                             "%s, %s, step %d (%s): compiled path gives %s, handler.validate gives %s; history %s" % (
+                                 tt, order, i, s, f, p, hist)))
+    return " ; ".join(outs), hits, tags
 
 
 def _hit(sig, what, **kw):
@@ -387,11 +456,13 @@ def run_impl(case):
         return run_p(b)
     if kind == "q":
         return run_q(a, b)
+    if kind == "f":
+        return run_f(a, b)
     raise AssertionError(case)
 
 
 def nontrivial(case, out):
-    return case[0] in "vpq" and ("ok " in out or "exc " in out or "=" in out or out in ("yes", "no"))
+    return case.lstrip("#")[0] in "vpqf" and ("ok " in out or "exc " in out or "=" in out or out in ("yes", "no"))
 
 
 def shrink(case, fails):
